@@ -171,6 +171,14 @@ def rule_eofmark(ctx, R, body_name=None):
     exits = [bi for bi, t in b.calls() if callee_name(t["f"], fb) == "std::process::exit"]
     reads = [bi for bi, t in b.calls() if callee_name(t["f"], fb) == "hyeong::util::io::read_line_from"]
     uses_empty = [e for e in eof_edges if e[2].endswith("=1") and any(reaches_without(cfg, [e[1]], x, cut_blocks=reads) for x in exits)]
+    # the session ends only at end of input or on the `exit` command: every process::exit of the prompt loop sits
+    # behind one of these two tests taken the right way
+    from .util import dominating_edge_labels
+    for x in exits:
+        labs = dominating_edge_labels(cfg, b, ev, x)
+        by_eof = any("io::read_line_from" in l and ("K''" in l or "is_empty" in l) and "trim" not in l and l.endswith("=1") for l in labs)
+        by_cmd = any("K'exit'" in l and l.endswith("=1") for l in labs)
+        R.check(by_eof or by_cmd, "eofmark:exit_guard", "the prompt loop exits only when the line read is empty (end of input) or is the `exit` command: %s" % [l[-50:] for l in labs if "read_line_from" in l][:3], b.blocks[x]["term"]["span"]["at"])
     if not uses_empty:
         R.ok("eofmark:not_used", "the prompt loop does not take the untrimmed empty string as end of input; nothing to require of the reader")
         return
